@@ -8,6 +8,7 @@
     [C08_freq_to_index_robust] (any error below half a channel is absorbed) and by the correspondence run.
     The last section records what the pinned tree did ([..._refuted] / [..._partial], over Model/C08_pinned.v). *)
 From Coq Require Import ZArith QArith Qround Qabs Qminmax String List Bool PrimFloat Uint63.
+Require SPP.Props.C08_ext.     (* DM carried, unchanged headers, delays of either sign, valid samples, file sets: Props/C08_ext.v *)
 Require SPP.Props.C08_pulse.   (* PulseExtractor: stated and proved in Props/C08_pulse.v; required here so that it is part of this check's cone *)
 Require Import SPP.Model.C08_rt SPP.Model.C08_spec SPP.Model.C08_pinned SPP.Gen.C08
   SPP.Proofs.C08_lib SPP.Proofs.C08_hdr SPP.Proofs.C08_pinned.
